@@ -26,7 +26,7 @@ ASSUMPTIONS = [
 DEPTH = {"quick": 5, "thorough": 7}
 FRAMES = [(), ("t",), ("b",), ("t", "t"), ("t", "b"), ("b", "t"), ("b", "b"), ("e", "E"), ("E", "e")]  # e / E: an empty text / binary frame (a message like any other)
 FAULTS = [None, 0, 1, 2]
-OPS = ["accept", "accept_sub", "receive", "receive_text", "receive_bytes", "iter_text", "iter_bytes", "send_text", "send_bytes", "send_text_empty", "send_bytes_empty", "close", "close_1001",
+OPS = ["accept", "accept_sub", "receive", "receive_text", "receive_bytes", "iter_text", "iter_bytes", "send_text", "send_bytes", "send_text_empty", "send_bytes_empty", "close", "close_1001", "close_pair",
        "raw_accept", "raw_send", "raw_close", "raw_close_nocode", "raw_http", "raw_trunc", "raw_empty", "state"]
 
 
@@ -75,7 +75,10 @@ class World:
         self.problems = []
         self.iters = {}
         self.api = {"accepted": False, "closed": False}  # what the application has done through calls that returned normally
-        self.ws = WebSocket({"type": "websocket", "path": "/", "headers": [], "query_string": b""}, self._receive, self._send)
+        scope = {"type": "websocket", "path": "/", "headers": [], "query_string": b""}
+        if len(frames) % 2 == 0:
+            scope["extensions"] = {"websocket.http.response": {}}  # (a server that can send a denial response: what the wrapper forwards stays the websocket alphabet)
+        self.ws = WebSocket(scope, self._receive, self._send)
         self.states = [(self.ws.client_state.value, self.ws.application_state.value)]
 
     async def _receive(self):
@@ -121,8 +124,10 @@ class World:
                 if op in self.iters:
                     self.iters[op] = "done"  # (a generator that raised is finished: the application asks for a new iterator next time)
         self.states.append((ws.client_state.value, ws.application_state.value))
-        if op in ("close", "close_1001") and out[0] == "raise" and self.api["closed"] and not self.faulted_in_op:
+        if op in ("close", "close_1001", "close_pair") and out[0] == "raise" and self.api["closed"] and not self.faulted_in_op:
             self.problems.append(f"{op} raised {out[1]} although the application had already closed the connection (close is idempotent)")
+        if op == "close_pair" and out[0] == "raise" and not self.faulted_in_op and not self.api["closed"]:
+            self.problems.append(f"two close() calls requested together and awaited one after the other raised {out[1]} (close is idempotent)")
         fw = len(self.forwarded) - before_fw
         # the application-side contract, independent of what reached the server
         sends = ("send_text", "send_bytes", "send_text_empty", "send_bytes_empty", "raw_send")
@@ -139,11 +144,11 @@ class World:
                 self.problems.append(f"{op} succeeded a second time / after close")
             if op in ("accept", "accept_sub", "raw_accept"):
                 self.api["accepted"] = True
-            if op in ("close", "close_1001", "raw_close", "raw_close_nocode"):
+            if op in ("close", "close_1001", "close_pair", "raw_close", "raw_close_nocode"):
                 self.api["closed"] = True
                 if ws.application_state.value != 3:
                     self.problems.append(f"after {op} returned, application_state is {ws.application_state.name}")
-        elif self.faulted_in_op and op in ("close", "close_1001", "raw_close", "raw_close_nocode"):
+        elif self.faulted_in_op and op in ("close", "close_1001", "close_pair", "raw_close", "raw_close_nocode"):
             self.api["closed"] = True  # the close event did reach the server
         elif self.faulted_in_op and op in ("accept", "accept_sub", "raw_accept"):
             self.api["accepted"] = True  # the accept event did reach the server
@@ -208,6 +213,17 @@ class World:
             return ws.close()
         if op == "close_1001":
             return ws.close(1001, "bye")
+        if op == "close_pair":
+            # two shutdown hooks that each ask for the close before either of them runs
+            async def both():
+                first, second = ws.close(), ws.close(1000, "done")
+                try:
+                    await first
+                except BaseException:
+                    second.close()
+                    raise
+                await second
+            return both()
         if op == "raw_accept":
             return ws.send({"type": "websocket.accept"})
         if op == "raw_send":
